@@ -6,7 +6,7 @@ From BV Require Import Base.Prelude Model.Block Model.ForkDB Model.Forkable Mode
   Model.Burst Model.Hub Model.CursorResolver Model.Joining
   Spec.Consumer Spec.Universe Check.Burst_Check Check.C07_Check Spec.C06_Spec Spec.C07_Spec Spec.C09_Spec Spec.C13_Spec
   Spec.C07_Compose_Spec Spec.C07_Shapes_Spec Spec.C07_More_Spec Spec.C07_Final_Spec Spec.C07_FinalUnfixed_Spec Spec.C07_Fuel_Spec
-  Proofs.C07_ComposeRun Proofs.C07_ComposeCheck Proofs.C07_FullRefuted Proofs.C07_Shapes Proofs.C07_FiltersNum Proofs.C07_FiltersCursor Proofs.C07_FiltersTarget Proofs.C07_Final Proofs.C07_FinalMem Proofs.C07_FinalCursor Proofs.C07_FinalRefuted Proofs.C07_Fuel
+  Proofs.C07_ComposeRun Proofs.C07_ComposeCheck Proofs.C07_FullRefuted Proofs.C07_Shapes Proofs.C07_FiltersNum Proofs.C07_FiltersCursor Proofs.C07_FiltersTarget Proofs.C07_Final Proofs.C07_FinalMem Proofs.C07_FinalCursor Proofs.C07_FinalTarget Proofs.C07_FinalRefuted Proofs.C07_Fuel
   Properties.C07_Compose.
 Local Open Scope N_scope.
 
@@ -75,6 +75,12 @@ Print Assumptions c07_final_increasing.
 Theorem c07_seamless_cursor_final : C07_seamless_cursor_final_full.
 Proof. exact c07_seamless_cursor_final_proof. Qed.
 Print Assumptions c07_seamless_cursor_final.
+
+(* final blocks only, TARGET-cursor mode (final target cursor on canon), any stop block: each delivered block extends the
+   previous one; complete on the final chain.  World hypotheses only: neither files_on_hub nor target_on_chain *)
+Theorem c07_seamless_target_final : C07_seamless_target_final_full.
+Proof. exact c07_seamless_target_final_proof. Qed.
+Print Assumptions c07_seamless_target_final.
 
 (* the fuel: a run ends with JFuel only if a burst of the hub exceeds the explicit bound (or through the fuel of the
    hub's lookups / the cursor resolver); partial: the bound is a hypothesis, the stream's fuel does not cover every world *)
@@ -280,4 +286,38 @@ Proof.
   split; [apply eventual_tip_b_sound; vm_compute; reflexivity|].
   split; [reflexivity|]. split; [reflexivity|]. split; [reflexivity|]. split; [reflexivity|]. split; [reflexivity|].
   split; [vm_compute; reflexivity|]. split; reflexivity.
+Qed.
+
+(* final blocks only through a target cursor: the world of c07_join_by_number_refuted (the hub becomes ready on the fork
+   13 <- 114 <- 115 while the files hold 14, 15: files_on_hub fails) with the final target cursor on block 12 meets every
+   hypothesis of c07_seamless_target_final; the join happens at 14 on the hub's forked answer, the handler sees none of it *)
+Definition ft_cu : cursor := mkCursor SIrr (mkR 12 12) (mkR 12 12) (mkR 12 12).
+Definition ft_c : jcfg := mkJ 2 5 10 2 5 (Some ft_cu) 0 1 0.
+Example c07_target_final_nonvacuous :
+  wf_b na_U = true /\ lib_ok_b LNone na_U = true /\ hub_of_universe na_U ft_c na_w /\
+  chain_ok na_canon /\ incl na_canon na_U /\ eventual_tip ft_c na_w na_canon /\
+  j_mode ft_c = 2 /\ j_cursor ft_c = Some ft_cu /\ j_filter ft_c = 1 /\ 0 < j_bundle ft_c /\
+  In (na_b 12) na_canon /\ bref (na_b 12) = cu_blk ft_cu /\ cu_lib ft_cu = cu_blk ft_cu /\
+  (exists b, In b na_canon /\ bnum b = run_start ft_c na_w) /\
+  cx_show (stream_run ft_c na_w [(8, 4)] 16 (filter (fun b => bnum b <? 16) na_canon) [])
+  = ([(SNewIrr, 5); (SNewIrr, 6); (SNewIrr, 7); (SNewIrr, 8); (SNewIrr, 9); (SNewIrr, 10); (SNewIrr, 11); (SNewIrr, 12);
+      (SNewIrr, 13); (SIrr, 14); (SIrr, 15); (SIrr, 16); (SIrr, 17); (SIrr, 18)], JNil).
+Proof.
+  destruct c07_join_by_number_refuted_proof as (U & c & w & ps & me & canon & forked & _).
+  split; [vm_compute; reflexivity|]. split; [vm_compute; reflexivity|].
+  split.
+  { split.
+    - exists []. split; [intros b p []|reflexivity].
+    - intros b Hb. vm_compute in Hb. vm_compute. tauto. }
+  split.
+  { split.
+    - vm_compute. repeat split.
+    - apply (NoDup_map_inv (fun x => x)). rewrite map_id. vm_compute.
+      repeat (constructor; [cbn; intros K; repeat (destruct K as [K|K]; [discriminate|]); exact K|]). constructor. }
+  split; [intros b Hb; unfold na_U; apply in_or_app; left; exact Hb|].
+  split; [apply eventual_tip_b_sound; vm_compute; reflexivity|].
+  split; [reflexivity|]. split; [reflexivity|]. split; [reflexivity|]. split; [reflexivity|].
+  split; [vm_compute; tauto|]. split; [reflexivity|]. split; [reflexivity|].
+  split; [exists (na_b 5); split; [vm_compute; tauto | vm_compute; reflexivity]|].
+  vm_compute. reflexivity.
 Qed.
